@@ -1,9 +1,194 @@
 import JominiModel.Driver.Util
+import JominiModel.Model.TextReader
+/-
+ops of property C07 (and the text-reader ops used by C09 / C20); formats in
+harness/src/props/c07.rs.
+-/
 namespace Jomini.Driver.C07
-open Jomini Jomini.Driver
+open Jomini Jomini.Driver Jomini.TextReader
 
-/-- ops of property C07 (none yet). -/
+def opName : Op → String
+  | .lt => "lt" | .le => "le" | .gt => "gt" | .ge => "ge"
+  | .ne => "ne" | .exact => "exact" | .eq => "eq" | .exists_ => "exists"
+
+def showTok : Token → String
+  | .open_ => "Open"
+  | .close => "Close"
+  | .op o => "Op:" ++ opName o
+  | .unquoted b => "U:" ++ toHex b
+  | .quoted b => "Q:" ++ toHex b
+
+def showErr : Err → String
+  | .eof => "err:eof" | .full => "err:full" | .io => "err:io"
+
+def showOutcome : Outcome → String
+  | .end_ => "end" | .err e => showErr e | .panic => "panic" | .ub => "ub" | .fuel => "fuel"
+
+def joinToks (ts : List String) : String :=
+  if ts.isEmpty then "-" else String.intercalate "," ts
+
+def parseStep (s : String) : Option Step :=
+  if s == "F" then some .fail
+  else if s == "P" then some .failForever
+  else if s.startsWith "R" then
+    match (s.drop 1).toNat? with
+    | some n => if n ≥ 1 then some (.repeat_ n) else none
+    | none => none
+  else
+    match s.toNat? with
+    | some n => if n ≥ 1 then some (.give n) else none
+    | none => none
+
+def parseSched (s : String) : Option (List Step) :=
+  if s == "-" then some [] else (s.splitOn ",").mapM parseStep
+
+/-- `16` or `16r` (recycled buffer: same model, the result must not depend on it) -/
+def parseCap (s : String) : Option Nat :=
+  if s.endsWith "r" then ((s.dropEnd 1).toString).toNat? else s.toNat?
+
+def mkReader (cap : Nat) (sched : List Step) (d : Bytes) : Reader :=
+  if cap == 0 then fromSlice d else fromReader cap sched d
+
+def delivered (cap : Nat) (d : Bytes) (r : Reader) : Nat :=
+  if cap == 0 then d.length else r.src.delivered
+
+/-- like `lexAll` but keeps calling `next` after an I/O error (at most 8 times) -/
+def lexRetry (fuel : Nat) : Nat → Nat → Reader → List String → List String × String × Reader
+  | 0, _, r, acc => (acc.reverse, "fuel", r)
+  | n + 1, errs, r, acc =>
+    match next fuel r with
+    | .ok r' (some t) => lexRetry fuel n errs r' (showTok t :: acc)
+    | .ok r' none => (acc.reverse, "end", r')
+    | .err r' .io => if errs < 8 then lexRetry fuel n (errs + 1) r' ("!io" :: acc) else (acc.reverse, "err:io", r')
+    | .err r' e => (acc.reverse, showErr e, r')
+    | .panic => (acc.reverse, "panic", r)
+    | .ub => (acc.reverse, "ub", r)
+    | .fuel => (acc.reverse, "fuel", r)
+
+/-- through `read()` -/
+def lexRead (fuel : Nat) : Nat → Reader → List String → List String × String × Reader
+  | 0, r, acc => (acc.reverse, "fuel", r)
+  | n + 1, r, acc =>
+    match TextReader.read fuel r with
+    | .ok r' t => lexRead fuel n r' (showTok t :: acc)
+    | .err r' e => (acc.reverse, showErr e, r')
+    | .panic => (acc.reverse, "panic", r)
+    | .ub => (acc.reverse, "ub", r)
+    | .fuel => (acc.reverse, "fuel", r)
+
+def showNext (fuel : Nat) (r : Reader) : String × Reader :=
+  match next fuel r with
+  | .ok r' (some t) => (showTok t, r')
+  | .ok r' none => ("end", r')
+  | .err r' e => (showErr e, r')
+  | .panic => ("panic", r)
+  | .ub => ("ub", r)
+  | .fuel => ("fuel", r)
+
+/-- read until the k-th Open (`container = true`) / Unquoted token -/
+def seek (fuel : Nat) (container : Bool) (k : Nat) : Nat → Nat → Reader → Except (String × Reader) Reader
+  | 0, _, r => .error ("hang -", r)
+  | n + 1, seen, r =>
+    match next fuel r with
+    | .ok r' (some t) =>
+      let hit := match container, t with
+        | true, .open_ => true
+        | false, .unquoted _ => true
+        | _, _ => false
+      if hit then (if seen + 1 == k then .ok r' else seek fuel container k n (seen + 1) r')
+      else seek fuel container k n seen r'
+    | .ok r' none => .error ("nok end", r')
+    | .err r' e => .error ("nok " ++ showErr e, r')
+    | .panic => .error ("panic -", r)
+    | .ub => .error ("ub -", r)
+    | .fuel => .error ("fuel -", r)
+
+def doSkip (container : Bool) (cap : Nat) (sched : List Step) (d : Bytes) (k : Nat) : String :=
+  let fuel := fuelFor d + 2 * sched.length
+  let r0 := mkReader cap sched d
+  let fin (s : String) (r : Reader) := s!"{s} {r.position} {delivered cap d r}"
+  match seek fuel container k (2 * d.length + 32) 0 r0 with
+  | .error (s, r) => fin s r
+  | .ok r =>
+    match (if container then skipContainer fuel r else skipUnquotedValue fuel r) with
+    | .ok r' _ => let (s, r'') := showNext fuel r'; fin ("ok " ++ s) r''
+    | .err r' e => fin (showErr e ++ " -") r'
+    | .panic => fin "panic -" r
+    | .ub => fin "ub -" r
+    | .fuel => fin "fuel -" r
+
+def skipTokens (fuel : Nat) : Nat → Reader → Except (String × Reader) Reader
+  | 0, r => .ok r
+  | n + 1, r =>
+    match next fuel r with
+    | .ok r' (some _) => skipTokens fuel n r'
+    | .ok r' none => .error ("nok end", r')
+    | .err r' e => .error ("nok " ++ showErr e, r')
+    | .panic => .error ("panic -", r)
+    | .ub => .error ("ub -", r)
+    | .fuel => .error ("fuel -", r)
+
+def doBytes (cap : Nat) (sched : List Step) (d : Bytes) (k n : Nat) : String :=
+  let fuel := fuelFor d + 2 * sched.length
+  let r0 := mkReader cap sched d
+  let fin (s : String) (r : Reader) := s!"{s} {r.position} {delivered cap d r}"
+  match skipTokens fuel k r0 with
+  | .error (s, r) => fin s r
+  | .ok r =>
+    match readBytes fuel r n with
+    | .ok r' b => let (s, r'') := showNext fuel r'; fin ("b:" ++ toHex b ++ " " ++ s) r''
+    | .err r' e => fin (showErr e ++ " -") r'
+    | .panic => fin "panic -" r
+    | .ub => fin "ub -" r
+    | .fuel => fin "fuel -" r
+
 def handle : Handler
+  | ["lws", v] => v.toNat?.map fun x => toString (leadingWhitespace (BitVec.ofNat 64 x))
+  | ["cchunk", v, b] => do
+      let x ← v.toNat?
+      let b ← b.toNat?
+      pure (toString (countChunk (BitVec.ofNat 64 x) (UInt8.ofNat b)).toNat)
+  | ["czb", v] => v.toNat?.map fun x => if containsZeroByte (BitVec.ofNat 64 x) then "1" else "0"
+  | ["tlex", h] => (parseHex h).map fun d =>
+      let r := sliceTokens d
+      s!"{joinToks (r.toks.map showTok)} {showOutcome r.out} {r.final.position}"
+  | ["tstream", c, s, h] => do
+      let cap ← parseCap c
+      let sched ← parseSched s
+      let d ← parseHex h
+      let r := lexAll (fuelFor d + 2 * sched.length) (2 * d.length + 34) (mkReader cap sched d) []
+      pure s!"{joinToks (r.toks.map showTok)} {showOutcome r.out} {r.final.position} {delivered cap d r.final}"
+  | ["tretry", c, s, h] => do
+      let cap ← parseCap c
+      let sched ← parseSched s
+      let d ← parseHex h
+      let (toks, out, r) := lexRetry (fuelFor d + 2 * sched.length) (2 * d.length + 50) 0 (mkReader cap sched d) []
+      pure s!"{joinToks toks} {out} {r.position} {delivered cap d r}"
+  | ["tread", c, s, h] => do
+      let cap ← parseCap c
+      let sched ← parseSched s
+      let d ← parseHex h
+      let (toks, out, r) := lexRead (fuelFor d + 2 * sched.length) (2 * d.length + 34) (mkReader cap sched d) []
+      pure s!"{joinToks toks} {out} {r.position} {delivered cap d r}"
+  | ["tskip", c, s, h, k] => do
+      let cap ← parseCap c
+      let sched ← parseSched s
+      let d ← parseHex h
+      let k ← k.toNat?
+      pure (doSkip true cap sched d k)
+  | ["tskipu", c, s, h, k] => do
+      let cap ← parseCap c
+      let sched ← parseSched s
+      let d ← parseHex h
+      let k ← k.toNat?
+      pure (doSkip false cap sched d k)
+  | ["tbytes", c, s, h, k, n] => do
+      let cap ← parseCap c
+      let sched ← parseSched s
+      let d ← parseHex h
+      let k ← k.toNat?
+      let n ← n.toNat?
+      pure (doBytes cap sched d k n)
   | _ => none
 
 end Jomini.Driver.C07
